@@ -5,7 +5,8 @@
   An operation is a tree of response-keyed fields.  Every field instance carries
     * `mode`  — how its resolver delivers: synchronously, through a deferred task (a pool-submitted
                 function / an awaited future), or through a deferred task whose result is again a
-                deferred task (`nested`, exercises `unwrap_value`);
+                deferred task (`nested`, exercises `unwrap_value`), or through a Future that is ALREADY
+                finished when the executor receives it (`ready`: the pool ran the task at once);
     * `out`   — what the resolver does: returns a value, raises `ResolverError`, raises an
                 unexpected exception.
   A returned value is described together with the type it is completed at (`Comp`): `nonNull c`
@@ -13,7 +14,7 @@
   scalar, `bad` a value for which `complete_value` raises `RuntimeError` (not iterable / not
   serialisable), `list` an iterable of item values, `obj` an object whose sub-selection is `fields`.
 -/
-namespace PyGql.Exec
+namespace PyGql.AsyncExec
 
 inductive Seg where
   | key (s : String)
@@ -23,7 +24,7 @@ inductive Seg where
 abbrev Path := List Seg
 
 inductive Mode where
-  | sync | deferred | nested
+  | sync | deferred | nested | ready
   deriving DecidableEq, Repr, Inhabited
 
 /-- exception classes that matter: `ResolverError` (caught by `else_`), the resolver's unexpected
@@ -106,4 +107,4 @@ def Flds.length : Flds → Nat
   | .nil => 0
   | .cons _ _ _ r => r.length + 1
 
-end PyGql.Exec
+end PyGql.AsyncExec
